@@ -75,6 +75,7 @@ def solve(hyps, goal, axioms=(), timeout_ms=10000, want_model=True):
     hyps = list(hyps)
     if mentions_decl(hyps + [goal], "str_lt"):
         hyps = hyps + str_order_quantified()
+    hyps = hyps + union_axioms()
     qf = [h for h in hyps if not has_quant(h)]
     qh = [h for h in hyps if has_quant(h)]
     quantified = bool(qh) or has_quant(goal)
